@@ -135,6 +135,12 @@ class TheCheck(SeqCheck):
                 hs.append(["new grow"] + list(seq) + ["tostring", "toarray"])
         return hs
 
+    def gen_grow_long(self):
+        """addstrf pieces whose formatted length straddles the buffer sizes of DYNAMIC_VSPRINTF's
+        retry loop (1024, 2048, 4096, ...)"""
+        from checks import seqoverlay
+        return seqoverlay.long_addstrf_histories(seqoverlay.LONG_LENGTHS)
+
     def rand_elem(self):
         rng = self.rng
         c = rng.randrange(10)
@@ -200,5 +206,7 @@ class TheCheck(SeqCheck):
         sts.append(Stream("queue-stack", pack(self.gen_qs(3 if quick else 4, 600 if quick else 6000)), history=True,
                           note="all safe op sequences up to the length bound + random ones; push/pushstr/pushint/pop*/get*"))
         sts.append(Stream("grow", pack(self.gen_grow(3 if quick else 4)), history=True))
+        sts.append(Stream("grow-long-addstrf", pack(self.gen_grow_long()), history=True,
+                          note="addstrf with formatted lengths 1000..1025, 2040..2050, 4090..4100, 5000, 10000"))
         sts.append(Stream("random-list", pack(self.gen_random_list(100 if quick else 1500, 120)), history=True))
         return sts
